@@ -2,7 +2,7 @@
 from common_tb import COMMON_TB
 
 CFG = dict(
-    id="C02", tie="Tie.C02", n_quick=70, n_thorough=400, thorough_seeds=3, gen_timeout=2400,
+    id="C02", tie="Tie.C02", n_quick=60, n_thorough=250, thorough_seeds=3, gen_timeout=2400,
     rule="a case is ONE step script executed on a real store (temp dir) and, step by step, on coq/Hist/Machine.v: "
          "random store configuration (synced/unsynced x embedded values x external commit allowance, header version "
          "0/1, MaxActiveTransactions 2..1000, MaxTxEntries 2..64, small MaxKeyLen/MaxValueLen, FileSize 256/600/4096 "
@@ -12,8 +12,8 @@ CFG = dict(
          "transactions fabricated by the harness (valid, and with one defect: PrevAlh, BlRoot, id too low/high/+2, Eh, "
          "entry count, BlTxID >= id, empty key), Sync, AllowCommitUpto, DiscardPrecommittedTxsSince, "
          "SetExternalCommitAllowance, close/reopen, index flush/compaction in between; plus fixed directed scripts "
-         "(Discard+Precommit+Reopen, cLogBuf full inside performPrecommit, sync() stopping midway, waiter of a discarded "
-         "tx) and a concurrent phase (3..7 goroutines committing, a monitor goroutine re-reading, the order of the "
+         "(Discard+Precommit+Reopen, cLogBuf full inside performPrecommit also followed by a replicated tx, sync() stopping "
+         "midway then reopen, waiter of a discarded tx, MaxActiveTransactions in synced mode) and a concurrent phase (3..7 goroutines committing, a monitor goroutine re-reading, the order of the "
          "returned ids and of the value offsets fed to the model as the interleaving). After EVERY step the whole "
          "committed history is re-read (ReadTx with integrity check, ReadValue, CommittedAlh, LastPrecommittedTxID) and "
          "compared with the model's (result class, ids, Alh, header fields, entries, value offsets, values). "
